@@ -354,7 +354,7 @@ impl Version {
         sc: &Arc<LeastRecentlyUsedCache<Setsum, CachedSst>>,
         start_bound: &Bound<T>,
         end_bound: &Bound<T>,
-        timestamp: u64,
+        _timestamp: u64,
     ) -> Result<MergingCursor<Box<dyn Cursor>>, SError> {
         fn lazy_cursor(
             fm: &FileManager,
@@ -384,10 +384,10 @@ impl Version {
             let root = self.options.path.clone();
             let setsum = Setsum::from_digest(sst.setsum);
             let lazy = move || lazy_cursor(&fm, &sc, &root, setsum);
-            cursors.push(Box::new(PruningCursor::new(
-                LazyCursor::new(lazy),
-                timestamp,
-            )?));
+            // NOTE:  Do not prune here.  A tombstone in this sst must stay visible to the merge so
+            // that it shadows older versions of its key in other ssts; the caller prunes the
+            // merged stream once, at `timestamp`.
+            cursors.push(Box::new(LazyCursor::new(lazy)));
         }
         fn bound_to_bound<U: AsRef<[u8]>>(u: &Bound<U>) -> Bound<&[u8]> {
             match u {
@@ -425,7 +425,7 @@ impl Version {
                     let root = self.options.path.clone();
                     let setsum = Setsum::from_digest(sst.setsum);
                     let lazy = move || lazy_cursor(&fm, &sc, &root, setsum);
-                    this_level_cursors.push(PruningCursor::new(LazyCursor::new(lazy), timestamp)?);
+                    this_level_cursors.push(LazyCursor::new(lazy));
                 }
             }
             if !this_level_cursors.is_empty() {
